@@ -425,6 +425,9 @@ func (w *Worker) endOfPath(s *State) PathEnd {
 	if len(fresh) > 0 {
 		r, _ := w.S.Check(s.Decls, s.PC, nil, nil)
 		confirmed = r == "sat"
+		if !confirmed && os.Getenv("VERIF_SLOWLOG") != "" {
+			fmt.Fprintf(os.Stderr, "REACH-UNCONFIRMED %v: %s\n", fresh, r)
+		}
 	}
 	e.mu.Lock()
 	for _, r := range s.Reached {
